@@ -62,34 +62,41 @@ structure SRes where
   st : State
   out : Out
 
-/-- `MsgCreateTenant` / `MsgCreateTenantWithMintableContract` -/
-def createTenant (s : State) (sender : String) (denom : Str) (period : Nat) (mc : Option Str) : SRes :=
-  match decodeAcc sender with
-  | none => ⟨s, .err⟩
-  | some acc =>
-    if denom.isEmpty || !validDenom denom || period == 0 then ⟨s, .err⟩
-    else if (match mc with | some c => !c.isEmpty && !isHexAddress c | none => false) then ⟨s, .err⟩
-    else
-      let id := largestTenantId s.st.tenants + 1
-      let contract : Str := match mc with
-        | some c => if c.isEmpty then "auto".toList else c
-        | none => []
-      let t : Tenant := { id := id, admins := [acc], denom := denom, period := period, mint := mc.isSome, contract := contract }
-      ⟨{ s with st := { s.st with tenants := s.st.tenants ++ [t] } }, .ok ("tenant=" ++ toString id)⟩
+/-- `Option` guard -/
+def check (b : Bool) : Option Unit := if b then some () else none
 
-/-- `MsgDepositToTreasury` -/
+@[simp] theorem check_eq_some (b : Bool) (u : Unit) : check b = some u ↔ b = true := by
+  unfold check; cases b <;> simp
+
+/-- `MsgCreateTenant` / `MsgCreateTenantWithMintableContract`: the tenant to append, or none when the message is refused -/
+def createTenantPlan (s : State) (sender : String) (denom : Str) (period : Nat) (mc : Option Str) : Option Tenant := do
+  let acc ← decodeAcc sender
+  check (!denom.isEmpty && validDenom denom && period != 0)
+  check (match mc with | some c => c.isEmpty || isHexAddress c | none => true)
+  let contract : Str := match mc with
+    | some c => if c.isEmpty then "auto".toList else c
+    | none => []
+  pure { id := largestTenantId s.st.tenants + 1, admins := [acc], denom := denom, period := period, mint := mc.isSome, contract := contract }
+
+def createTenant (s : State) (sender : String) (denom : Str) (period : Nat) (mc : Option Str) : SRes :=
+  match createTenantPlan s sender denom period mc with
+  | some t => ⟨{ s with st := { s.st with tenants := s.st.tenants ++ [t] } }, .ok ("tenant=" ++ toString t.id)⟩
+  | none => ⟨s, .err⟩
+
+/-- `MsgDepositToTreasury`: the amount and the bank after the transfer, or none -/
+def depositPlan (s : State) (sender : String) (tenant : Nat) (amount : Option Int) (denom : Str) : Option (Nat × Bank) := do
+  let acc ← decodeAcc sender
+  let a ← amount
+  check (validDenom denom && decide (0 < a))
+  let t ← findTenant s.st.tenants tenant
+  check (!t.mint)
+  let b ← s.bank.send acc (treasuryName tenant) denom a.toNat
+  pure (a.toNat, b)
+
 def deposit (s : State) (sender : String) (tenant : Nat) (amount : Option Int) (denom : Str) : SRes :=
-  match decodeAcc sender, amount with
-  | some acc, some a =>
-    if !validDenom denom || a ≤ 0 then ⟨s, .err⟩
-    else match findTenant s.st.tenants tenant with
-      | none => ⟨s, .err⟩
-      | some t =>
-        if t.mint then ⟨s, .err⟩
-        else match s.bank.send acc (treasuryName tenant) denom a.toNat with
-          | none => ⟨s, .err⟩
-          | some b => ⟨{ s with bank := b, log := s.log ++ [.deposited tenant denom a.toNat] }, .ok ""⟩
-  | _, _ => ⟨s, .err⟩
+  match depositPlan s sender tenant amount denom with
+  | some p => ⟨{ s with bank := p.2, log := s.log ++ [.deposited tenant denom p.1] }, .ok ""⟩
+  | none => ⟨s, .err⟩
 
 /-- the 256-bit value `common.HexToHash(tokenIdHex).Big()` passed to `ownerOf` -/
 def tokenValue (tok : Str) : Nat := bytesVal (fixBytes 32 (fromHex tok))
@@ -117,12 +124,15 @@ structure CreateRes where
   st : SState
   id : Option Nat
 
+def nextId (st : SState) (tenant : Nat) : Nat :=
+  match st.last tenant with
+  | some l => l + 1
+  | none => 0
+
 def createUtxr (st : SState) (tenant : Nat) (req : Str) (amount : Int) (denom : Str) (nft : Nft) (created : Nat) (rcpt : List Recipient) : CreateRes :=
   if alHas (st.index tenant) req then ⟨st, none⟩
   else
-    let id := match st.last tenant with
-      | some l => l + 1
-      | none => 0
+    let id := nextId st tenant
     let r : Rec := { id := id, req := req, amount := amount, denom := denom, nft := nft, created := created, rcpt := rcpt }
     ⟨{ st with
         recs := fupd st.recs tenant (st.recs tenant ++ [r]),
@@ -141,75 +151,87 @@ def encStr (s : Str) : String :=
 
 def nftStr (n : Nft) : String := encStr n.chain ++ "/" ++ String.ofList n.contract ++ "/" ++ String.ofList n.token
 
+structure RecordPlan where
+  id : Nat
+  rcpt : List Recipient
+  nft : Nft
+  st : SState
+
 /-- `MsgRecord` -/
+def recordPlan (s : State) (sender : String) (tenant : Nat) (req : Str) (amount : Option Int) (denom chain contract token : Str) : Option RecordPlan := do
+  let _ ← decodeAcc sender
+  let a ← amount
+  check (recordBasic amount denom contract token)
+  check (isAdmin s.st.tenants tenant sender)
+  let t ← findTenant s.st.tenants tenant
+  check (t.denom == denom && t.period != 0)
+  let rc ← getRecipients s chain contract token
+  let nft : Nft := { chain := chain, contract := normalizeHex contract, token := normalizeHex token }
+  let cr := createUtxr s.st tenant req a denom nft s.h rc
+  let id ← cr.id
+  pure { id := id, rcpt := rc, nft := nft, st := cr.st }
+
 def record (s : State) (sender : String) (tenant : Nat) (req : Str) (amount : Option Int) (denom chain contract token : Str) : SRes :=
-  match decodeAcc sender, amount with
-  | some _, some a =>
-    if !recordBasic amount denom contract token then ⟨s, .err⟩
-    else if !isAdmin s.st.tenants tenant sender then ⟨s, .err⟩
-    else match findTenant s.st.tenants tenant with
-      | none => ⟨s, .err⟩
-      | some t =>
-        if t.denom != denom || t.period == 0 then ⟨s, .err⟩
-        else match getRecipients s chain contract token with
-          | none => ⟨s, .err⟩
-          | some rc =>
-            let nft : Nft := { chain := chain, contract := normalizeHex contract, token := normalizeHex token }
-            let cr := createUtxr s.st tenant req a denom nft s.h rc
-            match cr.id with
-            | none => ⟨s, .err⟩
-            | some id =>
-              ⟨{ s with st := cr.st, log := s.log ++ [.recorded tenant id s.h] },
-               .ok ("id=" ++ toString id ++ " nft=" ++ nftStr nft ++ " rcpt=" ++ rcptStr rc)⟩
-  | _, _ => ⟨s, .err⟩
-
-/-- `MsgCancel`: admin check, then delete by request id (record and index entry) -/
-def cancel (s : State) (sender : String) (tenant : Nat) (req : Str) : SRes :=
-  match decodeAcc sender with
+  match recordPlan s sender tenant req amount denom chain contract token with
+  | some p => ⟨{ s with st := p.st, log := s.log ++ [.recorded tenant p.id s.h] },
+               .ok ("id=" ++ toString p.id ++ " nft=" ++ nftStr p.nft ++ " rcpt=" ++ rcptStr p.rcpt)⟩
   | none => ⟨s, .err⟩
-  | some _ =>
-    if (findTenant s.st.tenants tenant).isNone || !isAdmin s.st.tenants tenant sender then ⟨s, .err⟩
-    else match alGet (s.st.index tenant) req with
-      | none => ⟨s, .err⟩
-      | some id =>
-        let st' : SState := { s.st with
-          recs := fupd s.st.recs tenant ((s.st.recs tenant).filter (fun r => r.id != id)),
-          index := fupd s.st.index tenant (alErase (s.st.index tenant) req) }
-        ⟨{ s with st := st', log := s.log ++ [.cancelled tenant id s.h] }, .ok ("id=" ++ toString id)⟩
 
-/-- `MsgAddTenantAdmin` -/
+/-- `MsgCancel`: admin check, then delete by request id (record and index entry); the id cancelled, or none -/
+def cancelPlan (s : State) (sender : String) (tenant : Nat) (req : Str) : Option Nat := do
+  let _ ← decodeAcc sender
+  let _ ← findTenant s.st.tenants tenant
+  check (isAdmin s.st.tenants tenant sender)
+  alGet (s.st.index tenant) req
+
+def cancel (s : State) (sender : String) (tenant : Nat) (req : Str) : SRes :=
+  match cancelPlan s sender tenant req with
+  | some id =>
+    let st' : SState := { s.st with
+      recs := fupd s.st.recs tenant ((s.st.recs tenant).filter (fun r => r.id != id)),
+      index := fupd s.st.index tenant (alErase (s.st.index tenant) req) }
+    ⟨{ s with st := st', log := s.log ++ [.cancelled tenant id s.h] }, .ok ("id=" ++ toString id)⟩
+  | none => ⟨s, .err⟩
+
+/-- `MsgAddTenantAdmin`: the updated tenant, or none -/
+def addAdminPlan (s : State) (sender : String) (tenant : Nat) (newAdmin : String) : Option Tenant := do
+  let _ ← decodeAcc sender
+  let na ← decodeAcc newAdmin
+  check (isAdmin s.st.tenants tenant sender)
+  let t ← findTenant s.st.tenants tenant
+  check (!t.admins.contains na)
+  pure { t with admins := t.admins ++ [na] }
+
 def addAdmin (s : State) (sender : String) (tenant : Nat) (newAdmin : String) : SRes :=
-  match decodeAcc sender, decodeAcc newAdmin with
-  | some _, some na =>
-    if !isAdmin s.st.tenants tenant sender then ⟨s, .err⟩
-    else match findTenant s.st.tenants tenant with
-      | none => ⟨s, .err⟩
-      | some t =>
-        if t.admins.contains na then ⟨s, .err⟩
-        else ⟨{ s with st := { s.st with tenants := setTenant s.st.tenants { t with admins := t.admins ++ [na] } } }, .ok ""⟩
-  | _, _ => ⟨s, .err⟩
+  match addAdminPlan s sender tenant newAdmin with
+  | some t => ⟨{ s with st := { s.st with tenants := setTenant s.st.tenants t } }, .ok ""⟩
+  | none => ⟨s, .err⟩
 
 /-- `MsgRemoveTenantAdmin` -/
+def removeAdminPlan (s : State) (sender : String) (tenant : Nat) (target : String) : Option Tenant := do
+  let _ ← decodeAcc sender
+  let ta ← decodeAcc target
+  check (isAdmin s.st.tenants tenant sender)
+  let t ← findTenant s.st.tenants tenant
+  check (t.admins.contains ta && t.admins.length != 1)
+  pure { t with admins := t.admins.erase ta }
+
 def removeAdmin (s : State) (sender : String) (tenant : Nat) (target : String) : SRes :=
-  match decodeAcc sender, decodeAcc target with
-  | some _, some ta =>
-    if !isAdmin s.st.tenants tenant sender then ⟨s, .err⟩
-    else match findTenant s.st.tenants tenant with
-      | none => ⟨s, .err⟩
-      | some t =>
-        if !t.admins.contains ta || t.admins.length == 1 then ⟨s, .err⟩
-        else ⟨{ s with st := { s.st with tenants := setTenant s.st.tenants { t with admins := t.admins.erase ta } } }, .ok ""⟩
-  | _, _ => ⟨s, .err⟩
+  match removeAdminPlan s sender tenant target with
+  | some t => ⟨{ s with st := { s.st with tenants := setTenant s.st.tenants t } }, .ok ""⟩
+  | none => ⟨s, .err⟩
 
 /-- `MsgUpdateTenantPayoutPeriod` -/
+def setPeriodPlan (s : State) (sender : String) (tenant : Nat) (period : Nat) : Option Tenant := do
+  let _ ← decodeAcc sender
+  check (period != 0 && isAdmin s.st.tenants tenant sender)
+  let t ← findTenant s.st.tenants tenant
+  pure { t with period := period }
+
 def setPeriod (s : State) (sender : String) (tenant : Nat) (period : Nat) : SRes :=
-  match decodeAcc sender with
+  match setPeriodPlan s sender tenant period with
+  | some t => ⟨{ s with st := { s.st with tenants := setTenant s.st.tenants t } }, .ok ""⟩
   | none => ⟨s, .err⟩
-  | some _ =>
-    if period == 0 || !isAdmin s.st.tenants tenant sender then ⟨s, .err⟩
-    else match findTenant s.st.tenants tenant with
-      | none => ⟨s, .err⟩
-      | some t => ⟨{ s with st := { s.st with tenants := setTenant s.st.tenants { t with period := period } } }, .ok ""⟩
 
 /-! ### payout -/
 
